@@ -74,7 +74,7 @@ impl Decoder {
                     self.state = RecvState::Dropping(remaining_length - to_drop)
                 }
 
-                (None, data.split_to(to_drop))
+                (None, data.split_off(to_drop))
             }
         }
     }
